@@ -412,6 +412,13 @@ func runCheck(prop string, ps *PropSpec, tier, repo string, seed int, verbose bo
 		}
 	}
 
+	// thorough: turn the check on itself (stored seeded changes, sampled mutants)
+	var selfTest map[string]interface{}
+	if exit == 0 && selfTestEnabled(tier) {
+		selfTest = runSelfTest(prop, ps, repo, seed, p)
+		fmt.Printf("SELFTEST property=%s seeded %v/%v reported, mutants %v/%v reported (of %v tried)\n", prop, selfTest["seeded_reported"], selfTest["seeded_total"], selfTest["mutants_reported"], selfTest["mutants_compiled"], selfTest["mutants_tried"])
+	}
+
 	// evidence
 	var trusted []string
 	trusted = append(trusted, "go/packages, go/types, go/ssa (x/tools v0.29.0) and govc's encoding of SSA instructions (DESIGN Appendix B)")
@@ -457,6 +464,7 @@ func runCheck(prop string, ps *PropSpec, tier, repo string, seed int, verbose bo
 			"not_decided":              ps.NotDecided,
 			"bounded":                  ps.Bounded,
 			"bounded_stand_ins":        standInReports,
+			"selftest":                 selfTest,
 			"samples":                  samples,
 			"contract_files":           p.CS.Files,
 		},
